@@ -47,6 +47,11 @@ func registerRepoStubs() {
 		s.Store(p, dst.T.(*types.Pointer).Elem(), v)
 		return Iface{}, false
 	}
+	// the life-expectancy histogram (time.Since(ts)/time.Second fed into z.HistogramData) is not
+	// part of any property; its division by 1e9 of a symbolic duration is not decidable here
+	intrinsicTab["(*"+repoModule+".Metrics).trackEviction"] = func(s *State, fr *Frame, fn *ssa.Function, a []Value, d ssa.Value) (Value, bool) {
+		return nil, false
+	}
 	intrinsicTab[zPkg+".NanoTime"] = func(s *State, fr *Frame, fn *ssa.Function, a []Value, d ssa.Value) (Value, bool) {
 		return s.fresh("nanotime", 64), false
 	}
